@@ -67,7 +67,7 @@ def generate(plan) -> None:
     app = r.choice([None, "13", "10"])
     k["cfg"] = {"zones": zones, "dhw": dhw, "app": dev(app) if app else None}
     k["hours"] = 49 if not fault_free else 26
-    k["p_drop_rq"] = 0.0 if fault_free else r.choice([0.0, 0.1, 0.3])
+    k["p_drop_rq"] = 0.0 if fault_free else r.choice([0.0, 0.3, 0.7, 0.9])
     k["p_drop_rp"] = 0.0 if fault_free else r.choice([0.1, 0.3, 0.6])
     k["fault_window_s"] = 0 if fault_free else r.choice([120, 900, 3600])
     k["split_rate"] = 0.0
@@ -137,6 +137,18 @@ async def run(ctx) -> None:
                     return []
         return [0.03]
 
+    n_tx = [0]
+
+    def tx_policy(ser_, frame, nth):
+        if loop.time() - t0 >= fw or b" 7FFF " in frame:
+            return False
+        n_tx[0] += 1
+        lost = plan.decide(f"tx/{n_tx[0]}", lambda r: r.random() < k("p_drop_rq", 0.0), False)
+        if lost:
+            dropped["rq"] += 1
+        return lost
+
+    hub.tx_policy = tx_policy
     ctl.reply_filter = reply_filter
     want = expected(cfg)
     want_facts = facts(want)
